@@ -831,6 +831,116 @@ theorem c01_compose_partial (qs : List Group) (fs : Group → List ℝ → ℝ) 
   · intro q hq x hx c' hc'
     exact delta_none_of_not_mem x n c' hc'
 
+
+/-! ### deriving the absence of missing-replica factors from the sets of chain names -/
+
+
+/-- every input that touches an ensemble has all the chains of that ensemble that occur among the inputs -/
+def Complete (X : List (Obs ℝ)) : Prop :=
+  ∀ x ∈ X, ∀ x' ∈ X, ∀ m ∈ x'.names, ∀ e, e ∈ x.mcNames → (e ++ "|").isPrefixOf m = true → m ∈ x.names
+
+theorem names_of_mem_newSampleNames (xs : List (Obs ℝ)) (m : String) (h : m ∈ newSampleNames xs) :
+    ∃ x ∈ xs, m ∈ x.names := by
+  unfold newSampleNames at h
+  simp only [List.mem_filter, C04.mem_sortedSetStr, List.mem_flatMap, List.mem_append] at h
+  obtain ⟨⟨x, hx, hm⟩, hnc⟩ := h
+  rcases hm with hm | hm
+  · exact ⟨x, hx, hm⟩
+  · exfalso
+    simp only [Bool.not_eq_true', ← Bool.not_eq_true] at hnc
+    apply hnc
+    rw [List.contains_iff_mem, C04.mem_sortedSetStr]
+    exact List.mem_flatMap.mpr ⟨x, hx, hm⟩
+
+/-- no missing-replica factor when the input has every chain of the ensemble that occurs in the result -/
+theorem sigma_one_of_cover (xs : List (Obs ℝ)) (o : Obs ℝ) (e : String)
+    (hcov : e ∈ o.mcNames → ∀ m ∈ Spec.chainsOf (Spec.allChains xs) e, m ∈ o.names) : Spec.sigma xs o e = 1 := by
+  unfold Spec.sigma
+  split
+  · simp [ofNat_eq_lit, lit_eq]
+  · rename_i hin
+    replace hcov := hcov (by simpa using hin)
+    have hnd : (Spec.chainsOf (Spec.allChains xs) e).Nodup := by
+      unfold Spec.chainsOf Spec.allChains newSampleNames
+      exact (((C04.pairwise_sortedSetStr _).imp (fun h => ne_of_lt h)).filter _).filter _
+    have hsub : Spec.chainsOf (Spec.allChains xs) e ⊆ Spec.chainsOf o.names e := by
+      intro m hm
+      have h1 := hcov m hm
+      unfold Spec.chainsOf at hm ⊢
+      rw [List.mem_filter] at hm ⊢
+      exact ⟨h1, hm.2⟩
+    have hle : (Spec.chainsOf (Spec.allChains xs) e).length ≤ (Spec.chainsOf o.names e).length :=
+      (List.subperm_of_subset hnd hsub).length_le
+    rw [if_neg]
+    · simp [ofNat_eq_lit, lit_eq]
+    · simp only [Bool.and_eq_true, decide_eq_true_eq, not_and, not_lt]
+      intro _
+      exact hle
+
+theorem mem_mcNames (o : Obs ℝ) (e : String) : e ∈ o.mcNames ↔ ∃ m ∈ o.names, Py.ensOf m = e := by
+  unfold Obs.mcNames
+  rw [C04.mem_sortedSetStr, List.mem_map]
+
+/-- within any sub-collection of a complete collection of inputs no missing-replica factor occurs -/
+theorem sigma_one_of_complete (X xs : List (Obs ℝ)) (hsub : ∀ x ∈ xs, x ∈ X) (hC : Complete X)
+    (x : Obs ℝ) (hx : x ∈ xs) (e : String) : Spec.sigma xs x e = 1 := by
+  apply sigma_one_of_cover
+  intro he m hm
+  unfold Spec.chainsOf at hm
+  rw [List.mem_filter] at hm
+  obtain ⟨x', hx', hmx'⟩ := names_of_mem_newSampleNames xs m hm.1
+  exact hC x (hsub x hx) x' (hsub x' hx') m hmx' e he hm.2
+
+/-- ... and none for the intermediate results either: each has every chain its inputs have -/
+theorem sigma_one_intermediate (qs : List Group) (hd : ∀ q ∈ qs, IsDerived q.G q.X q.y)
+    (hC : Complete (totalInputs qs)) (q : Group) (hq : q ∈ qs) (e : String) :
+    Spec.sigma (qs.map (·.y)) q.y e = 1 := by
+  apply sigma_one_of_cover
+  intro he m hm
+  unfold Spec.chainsOf at hm
+  rw [List.mem_filter] at hm
+  obtain ⟨y', hy', hmy'⟩ := names_of_mem_newSampleNames _ m hm.1
+  obtain ⟨q', hq', rfl⟩ := List.mem_map.mp hy'
+  have h1 : m ∈ newSampleNames q'.X := ((hd q' hq').hasChain m).mp ((rep_isSome_iff q'.y m).mpr hmy')
+  obtain ⟨x', hx', hmx'⟩ := names_of_mem_newSampleNames _ m h1
+  obtain ⟨m'', hm'', hens⟩ := (mem_mcNames q.y e).mp he
+  have h2 : m'' ∈ newSampleNames q.X := ((hd q hq).hasChain m'').mp ((rep_isSome_iff q.y m'').mpr hm'')
+  obtain ⟨x'', hx'', hmx''⟩ := names_of_mem_newSampleNames _ m'' h2
+  have he'' : e ∈ x''.mcNames := (mem_mcNames x'' e).mpr ⟨m'', hmx'', hens⟩
+  have hx''t : x'' ∈ totalInputs qs := List.mem_flatMap.mpr ⟨q, hq, hx''⟩
+  have hx't : x' ∈ totalInputs qs := List.mem_flatMap.mpr ⟨q', hq', hx'⟩
+  have h3 : m ∈ x''.names := hC x'' hx''t x' hx't m hmx' e he'' hm.2
+  have h4 : m ∈ newSampleNames q.X := (hd q hq).inputChains x'' hx'' m ((rep_isSome_iff x'' m).mpr h3)
+  exact (rep_isSome_iff q.y m).mp (((hd q hq).hasChain m).mpr h4)
+/-- **C01 (independence of the splitting into intermediate steps), for inputs that share their replica sets.**
+    If every input that touches an ensemble has all the chains of that ensemble which occur among the inputs
+    (`Complete`: a hypothesis about the sets of chain names only), the two-level evaluation and the one-shot evaluation
+    with the chain-rule gradient carry the same fluctuation on every chain and configuration - for any number of
+    groups, inputs, replicas and any configuration lists per chain.  The `sigma = 1` hypotheses of
+    `c01_compose_partial` are derived, for the inputs within their groups, within the whole, and for the
+    intermediate results. -/
+theorem c01_compose_complete (qs : List Group) (fs : Group → List ℝ → ℝ) (f2 F : List ℝ → ℝ)
+    (covEq : List (List ℝ) → List (List ℝ) → Bool) (z z1 : Obs ℝ)
+    (hwf : ∀ q ∈ qs, ∀ x ∈ q.X, x.WF = true)
+    (hy : ∀ q ∈ qs, derivedObs (fs q) q.G q.X covEq = .ok q.y)
+    (hywf : ∀ q ∈ qs, q.y.WF = true)
+    (hz : derivedObs f2 (qs.map (·.a)) (qs.map (·.y)) covEq = .ok z)
+    (hz1 : derivedObs F (totalGrad qs) (totalInputs qs) covEq = .ok z1)
+    (hne : ∀ q ∈ qs, ∀ x ∈ q.X, ∀ n, (x.rep? n).isSome = true → Spec.cfgs x n ≠ [])
+    (hC : Complete (totalInputs qs)) :
+    ∀ n, n ∈ newSampleNames (qs.map (·.y)) → n ∈ newSampleNames (totalInputs qs) →
+      ∀ c ∈ Spec.unionCfgs (totalInputs qs) n, z.delta? n c = z1.delta? n c := by
+  have hd : ∀ q ∈ qs, IsDerived q.G q.X q.y :=
+    fun q hq => isDerived_of_derivedObs (fs q) q.G q.X covEq q.y (hwf q hq) (hy q hq)
+  apply c01_compose_partial qs fs f2 F covEq z z1 hwf hy hywf hz hz1 hne
+  · intro q hq e
+    exact sigma_one_intermediate qs hd hC q hq e
+  · intro q hq x hx e
+    refine ⟨sigma_one_of_complete (totalInputs qs) q.X ?_ hC x hx e,
+            sigma_one_of_complete (totalInputs qs) (totalInputs qs) (fun _ h => h) hC x ?_ e⟩
+    · intro x' hx'; exact List.mem_flatMap.mpr ⟨q, hq, hx'⟩
+    · exact List.mem_flatMap.mpr ⟨q, hq, hx⟩
+
 end compose
 
 end PV
